@@ -135,7 +135,9 @@ class G:
         if d > 0 and t < 0.08:
             f = self.factor(d - 1)
             return ("neg", f) if f[0] != "neg" else f
-        if d > 0 and t < 0.12: return ("not", self.factor(d - 1))
+        if d > 0 and t < 0.12:
+            f = self.factor(d - 1)
+            return ("not", f) if not (f[0] == "lit" and f[1] == "atom") else f     # `¬:a` lexes `¬` as an identifier in argument position
         if d > 0 and t < 0.20: return ("trans", self.core(d - 1))
         return self.core(d)
 
@@ -218,6 +220,28 @@ def s_sx(s):
     return ["expr", e_sx(s[1])]
 
 
+def ends_dot(e):
+    t = e[0]
+    if t == "slice": return e[2][-1][0] == "dot"
+    if t in ("neg", "not"): return ends_dot(e[1])
+    if t == "term": return ends_dot(e[2][-1][1])
+    if t == "range": return ends_dot(e[3])
+    if t == "rangei": return ends_dot(e[5])
+    return False
+
+
+def starts_ident(e):
+    t = e[0]
+    if t in ("var", "call", "slice"): return True
+    if t == "lit": return e[1] == "bool"
+    if t == "trans": return starts_ident(e[1])
+    if t in ("term", "range", "rangei"): return starts_ident(e[1])
+    return False
+
+
+def adjacent_swizzle(es): return any(ends_dot(a) and starts_ident(b) for a, b in zip(es, es[1:]))
+
+
 class R:
     """source rendering of a tree; v = amount of (insignificant) variation, 0 = canonical"""
     def __init__(self, rng, v=0.0): self.rng = rng; self.v = v
@@ -235,7 +259,7 @@ class R:
         if t == "lit":
             if e[1] == "num": b = e[2]
             elif e[1] == "str": b = '"%s"' % e[2]
-            elif e[1] == "bool": b = ("true" if e[2] else "false") if not self.vary() else ("✓" if e[2] else "✗")
+            elif e[1] == "bool": b = "true" if e[2] else "false"
             else: b = ":" + e[2]
             return b + self.k(e[3])
         if t == "var": return e[1] + self.k(e[2])
@@ -255,14 +279,14 @@ class R:
             rsep = r.choice(["; ", ";", ";\n ", "\n "]) if self.vary() else "; "
             return "[" + self.osp() + rsep.join(esep.join(self.e(x) for x in row) for row in e[1]) + self.osp() + "]"
         if t == "set": return "{" + (", " if not self.vary() else ",").join(self.e(x) for x in e[1]) + "}"
-        if t == "tup": return "(" + ("," if not self.vary() else ", ").join(self.e(x) for x in e[1]) + ")"
+        if t == "tup": return "(" + ("," if not (self.vary() or adjacent_swizzle(e[1])) else ", ").join(self.e(x) for x in e[1]) + ")"
         if t == "rec":
             return "{" + (", " if not self.vary() else ",").join(n + self.k(k) + ":" + (" " if not self.vary() else "") + self.e(x) for n, k, x in e[1]) + "}"
         if t == "call":
             return e[1] + "(" + (", " if not self.vary() else ",").join((n + ": " if n else "") + self.e(x) for n, x in e[2]) + ")"
         if t == "slice": return e[1] + "".join(self.e(s) for s in e[2])
         if t == "dot": return "." + e[1]
-        if t == "brk": return "[" + ("," if not self.vary() else ", ").join(self.e(x) for x in e[1]) + "]"
+        if t == "brk": return "[" + ("," if not (self.vary() or adjacent_swizzle(e[1])) else ", ").join(self.e(x) for x in e[1]) + "]"
         if t == "all": return ":"
         if t == "range": return self.e(e[1]) + ("..=" if e[2] else "..") + self.e(e[3])
         if t == "rangei": return self.e(e[1]) + ("..=" if e[2] else "..") + self.e(e[3]) + ("..=" if e[4] else "..") + self.e(e[5])
@@ -295,7 +319,7 @@ def fixed_model_cases(rng):
     out = []
     def one(e, v=0.0): out.append(model_case([("expr", e)], rng, v, "model-fixed"))
     for o in OPS: one(("term", va, [(o, vb)])); one(("term", va, [(o, vb)]), 1.0)
-    for o in OPS: one(("def", False, "x", None, ("term", n1, [(o, ("neg", n2))]))[4])
+    for o in OPS: one(("term", n1, [(o, ("neg", n2))]))
     one(("mat", [[n1, n2, n3], [n3, n2, n1]])); one(("mat", [[n1, n2, n3]])); one(("mat", [[n1], [n2], [n3]])); one(("mat", []))
     one(("mat", [[n1, n2], [n3]])); one(("mat", [[n1], [n2, n3]]))
     one(("mat", [[("neg", n1), ("term", va, [("sub", vb)]), ("neg", vb)]]))
@@ -488,27 +512,35 @@ def generate(tier, rng):
     quick = tier == "quick"
     for c in fixed_model_cases(rng): yield c
     # modelled subset: clean trees (the formatter is expected to be right), canonical and varied source
-    for i in range(700 if quick else 8000):
+    for i in range(450 if quick else 8000):
         g = G(rng, clean=True)
-        stmts = [g.stmt(rng.choice([1, 2, 2, 3])) for _ in range(rng.choice([1, 1, 2, 3]))]
+        stmts = [g.stmt(rng.choice([1, 1, 2, 2, 3])) for _ in range(rng.choice([1, 1, 2, 3]))]
         yield model_case(stmts, rng, 0.0 if i % 2 else 0.4, "model-clean")
     # modelled subset: everything, including the constructs of the known defect classes
-    for i in range(700 if quick else 8000):
+    for i in range(350 if quick else 8000):
         g = G(rng, clean=False, jagged_p=0.08)
-        stmts = [g.stmt(rng.choice([1, 2, 2, 3])) for _ in range(rng.choice([1, 1, 2, 3, 4]))]
+        stmts = [g.stmt(rng.choice([1, 1, 2, 2, 3])) for _ in range(rng.choice([1, 1, 2, 3, 4]))]
         yield model_case(stmts, rng, 0.0 if i % 2 else 0.4, "model-all")
-    # the same trees also as pure differential cases are implied (comparison (2) is part of the model verdict)
-    # whole grammar, grammar-based
-    for rep in range(6 if quick else 60):
+    # whole grammar, grammar-based: every item alone, then combinations of two or three items in one program
+    for rep in range(3 if quick else 40):
         items = gen_items(rng)
         for name, text in items: yield diff_case(text, "diff-item", name)
-        # combinations: two or three items in one program
-        for _ in range(40 if quick else 120):
-            k = rng.choice([2, 2, 3])
-            pick = rng.sample(items, k)
+        for _ in range(60 if quick else 200):
+            pick = rng.sample(items, rng.choice([2, 2, 3]))
             yield diff_case("\n\n".join(t for _, t in pick), "diff-combo", "+".join(n for n, _ in pick))
-    # seed corpus
-    for kind, s in corpus_programs():
+    # seed corpus (quick: a sample; big files are slow in the dev-profile parser)
+    corpus = corpus_programs()
+    if quick:
+        quota = {"corpus-test": 220, "corpus-file": 25, "corpus-block": 200, "corpus-line": 200, "corpus-para": 200}
+        by = {}
+        for kind, s in corpus: by.setdefault(kind, []).append(s)
+        corpus = []
+        for kind in sorted(by):
+            pool = [s for s in by[kind] if len(s) < 7000]
+            for s in rng.sample(pool, min(quota.get(kind, 100), len(pool))): corpus.append((kind, s))
+    else:
+        corpus = [(k, s) for k, s in corpus if not (s.startswith("Math Unit Tests") or len(s) > 40000)]
+    for kind, s in corpus:
         yield diff_case(s, kind)
 
 
